@@ -154,7 +154,7 @@ Proof.
     + apply step_send_ok in H; auto. destruct H as ((SR1 & SR2 & SR3 & SR4 & SR5) & _).
       unfold remaining. rewrite SR1, SR2, SR4.
       split; [|auto]. destruct o; try discriminate; destruct out; reflexivity.
-    + destruct o; try discriminate. inversion H; subst. cbn. auto.
+    + destruct o; try discriminate; inversion H; subst; cbn; auto.
 Qed.
 
 (* bytes handed to the caller (with stripped delimiters), bytes buffered and
@@ -195,6 +195,7 @@ Proof.
     destruct (sock_recv _ _) as [[?|] ?]; [|inversion H; auto].
     destruct (Nat.ltb _ _); inversion H; auto.
   + inversion H. auto.
++ inversion H. auto.
 Qed.
 
 (* every byte passed to send/sendall/buffer is, in order and exactly once,
